@@ -4,12 +4,15 @@
    return of Extract, the CHANGE of the whole file system the model predicts (ideal, and as built where
    that differs) plus the error class.  The harness writes the archive as a real tar stream, realises the
    initial file system in a scratch directory, snapshots it every time the extractor asks for the next
-   header, and compares.                                                                          *)
+   header, and compares.  With Reuse.calls > 1 a behaviour is a sequence of Extract calls on ONE Extractor
+   value (field `more`: the later calls, each with its own target and the changes the owner of the previous
+   target made in between); every call is compared in the same way, with respect to its own target.   *)
 EXTENDS MCTarFS, Json
 
 VARIABLES v,      \* the initial-target variant
-          hist    \* headers offered so far
-gvars == <<w, fs0, v, hist>>
+          hist,   \* headers offered so far in the current Extract call
+          past    \* the finished calls on this Extractor value: <<[tgt, entries]>>
+gvars == <<w, fs0, v, hist, past>>
 
 AllDevs == {"Dev_C38_DeferredMetaByPath"}
 Gone == [k |-> "gone", c |-> "", m |-> 0, t |-> "", tg |-> ""]
@@ -23,32 +26,55 @@ Worlds(ww, es, devs) ==
   IF ww.done THEN <<>>
   ELSE IF es = <<>> THEN <<Finish(ww, devs)>>
   ELSE LET x == Step(ww, Head(es), devs) IN <<x>> \o Worlds(x, Tail(es), devs)
-Steps(devs) ==
-  LET ws == Worlds(NewRun(v), hist, devs)
+\* one call: the predicted change of the file system per consumed header / at return, from the world at its start
+StepsFrom(w0, es, devs) ==
+  LET ws == Worlds(w0, es, devs)
   IN [i \in 1..Len(ws) |-> [done |-> ws[i].done, err |-> ws[i].err,
-                            diff |-> Diff(IF i = 1 THEN fs0 ELSE ws[i - 1].fs, ws[i].fs)]]
-Behaviour == LET ideal == Steps({})
-                 dev   == Steps(AllDevs)
-             IN [v |-> v, init |-> FsSet(fs0), entries |-> hist, ideal |-> ideal,
-                 dev |-> IF dev = ideal THEN <<>> ELSE <<dev>>]
+                            diff |-> Diff(IF i = 1 THEN w0.fs ELSE ws[i - 1].fs, ws[i].fs)]]
+LastWorld(w0, es, devs) == LET ws == Worlds(w0, es, devs) IN ws[Len(ws)]
+Steps(devs) == StepsFrom(NewRun(v), IF past = <<>> THEN hist ELSE past[1].entries, devs)
 
-GInit == Init /\ v \in Variants /\ fs0 = InitFS(v) /\ hist = <<>>
-GEntry == /\ ~w.done /\ w.n < MaxEntries
+\* every call of the behaviour, the current one last
+Calls == Append(past, [tgt |-> w.tgt, entries |-> hist])
+\* the calls after the first: target, what the owner of the previous target changed before the call (age), the
+\* archive and the prediction; all on the SAME Extractor value
+RECURSIVE More(_, _)
+More(prev, cs) ==       \* prev = the world in which the previous call ended
+  IF cs = <<>> THEN <<>>
+  ELSE LET w0 == Again(prev, Head(cs).tgt)
+       IN <<[tgt |-> Head(cs).tgt, age |-> Diff(prev.fs, w0.fs), entries |-> Head(cs).entries,
+             ideal |-> StepsFrom(w0, Head(cs).entries, {})]>>
+          \o More(LastWorld(w0, Head(cs).entries, {}), Tail(cs))
+Behaviour == LET ideal == Steps({})
+                 dev   == IF Len(Calls) = 1 THEN Steps(AllDevs) ELSE ideal
+             IN [v |-> v, init |-> FsSet(InitFS(v)), entries |-> Calls[1].entries, ideal |-> ideal,
+                 dev |-> IF dev = ideal THEN <<>> ELSE <<dev>>,
+                 more |-> More(LastWorld(NewRun(v), Calls[1].entries, {}), Tail(Calls))]
+
+GInit == Init /\ v \in Variants /\ fs0 = InitFS(v) /\ hist = <<>> /\ past = <<>>
+GEntry == /\ ~w.done /\ w.n < MaxEntriesAt(w)
           /\ \E h \in Offer(w) : w' = Step(w, h, {}) /\ hist' = Append(hist, h)
-          /\ UNCHANGED <<fs0, v>>
+          /\ UNCHANGED <<fs0, v, past>>
 GEnd == /\ ~w.done /\ w.n > 0
         /\ w' = Finish(w, {})
-        /\ UNCHANGED <<fs0, v, hist>>
-GNext == GEntry \/ GEnd
+        /\ UNCHANGED <<fs0, v, hist, past>>
+\* the same Extractor value is pointed at another target and used again
+GReuse == /\ w.done /\ w.call < Reuse.calls
+          /\ \E t \in Reuse.targets : w' = Again(w, t)
+          /\ fs0' = AgeFS(w.fs, w.tgt)
+          /\ past' = Append(past, [tgt |-> w.tgt, entries |-> hist]) /\ hist' = <<>>
+          /\ UNCHANGED v
+GNext == GEntry \/ GEnd \/ GReuse
 GSpec == GInit /\ [][GNext]_gvars
 
-Emit == ~w.done \/ PrintT(<<"BEHAVIOUR", ToJson(Behaviour)>>)
+Complete == w.done /\ w.call = Reuse.calls
+Emit == ~Complete \/ PrintT(<<"BEHAVIOUR", ToJson(Behaviour)>>)
 
 \* -simulate: one random archive after the other
-Flush == /\ w.done
+Flush == /\ Complete
          /\ PrintT(<<"BEHAVIOUR", ToJson(Behaviour)>>)
          /\ \E nv \in Variants : v' = nv /\ w' = NewRun(nv) /\ fs0' = InitFS(nv)
-         /\ hist' = <<>>
-GNextSim == IF w.done THEN Flush ELSE GNext
+         /\ hist' = <<>> /\ past' = <<>>
+GNextSim == IF Complete THEN Flush ELSE GNext
 GSpecSim == GInit /\ [][GNextSim]_gvars
 =============================================================================
